@@ -171,6 +171,13 @@ def rand_graph(rng: random.Random, max_n=6, max_e=6, max_props=4, axes=True) -> 
         nprops[rand_name(rng, nprops)] = rand_prop(rng, n)
     for _ in range(rng.randint(0, max_props - 1)):
         eprops[rand_name(rng, eprops)] = rand_prop(rng, e)
+    # the same property name on nodes and on edges (identifiers are unique per group only), often of the same kind
+    if nprops and rng.random() < 0.35:
+        nm = rng.choice(list(nprops))
+        if rng.random() < 0.6 and "vlen" in nprops[nm]["values"] and e > 0:
+            eprops[nm] = {"values": rand_vlen(rng, e), "missing": rand_mask(rng, e)}
+        else:
+            eprops[nm] = rand_prop(rng, e)
     md = {"directed": rng.random() < 0.5}
     if axes and rng.random() < 0.5:
         axn = []
